@@ -10,10 +10,10 @@ from anyio.lowlevel import checkpoint
 
 from ..explore import E1Check
 
-MODES = ("normal", "exc", "cancel", "tdraise")
+MODES = ("normal", "exc", "cancel", "tdraise", "tdnew")
 SHAPES = ("()", "()()", "(())")
 SPAWNS = ("tg", "service", "factory", "component")
-EXTRA_SPAWNS = ("service-outer", "factory-outer")
+EXTRA_SPAWNS = ("service-outer", "factory-outer", "component-nested")
 
 
 class HE(Exception):
@@ -141,6 +141,17 @@ class C12(E1Check):
                                     raise HE("teardown")
 
                                 ctx.add_teardown_callback(raiser)
+                            if mode == "tdnew":
+                                # a context created while `ctx` is being torn down: `ctx` is still the current context, so it is the parent
+                                def creator(ctx: Any = ctx, path: str = path) -> None:
+                                    c = cur()
+                                    if c is not ctx:
+                                        fails.append(("current", f"task {t}: inside a teardown callback of {path} current_context() is {_d(c)}"))
+                                    n = Context()
+                                    if n.parent is not ctx:
+                                        fails.append(("parent", f"task {t}: Context() created inside a teardown callback of {path} has parent {_d(n.parent)}, expected {_d(ctx)}"))
+
+                                ctx.add_teardown_callback(creator)
                             for k, ch in enumerate(children):
                                 await run_block(t, stack, ch, f"{path}.{k}", ctx)
                                 check(t, stack, f"inside {path} after child {k}")
@@ -213,6 +224,26 @@ class C12(E1Check):
 
                     factory = await owner.start_background_task_factory()
                     factory.start_task_soon(lambda t=t, spec=spec, v2=v2: task_body(t, spec, v2), f"ft{t}")
+                elif kind == "component-nested":
+                    # a component tree started from inside the start() of a component of another tree
+                    def v5(b: Any, owner: Any = owner) -> Any:
+                        if b is None or b is owner:
+                            return f"inside the inner tree's prepare() current_context() is {_d(b)}"
+                        return None
+
+                    async def iprepare(self, t=t, spec=spec) -> None:
+                        await task_body(t, dict(spec, spawn="component"), v5)
+
+                    Inner = type(f"Inner{t}", (Component,), {"prepare": iprepare})
+
+                    async def ostart(self, Inner=Inner) -> None:
+                        await start_component(Inner, {}, timeout=None)
+
+                    def oinit(self) -> None:
+                        pass
+
+                    Outer = type(f"Outer{t}", (Component,), {"start": ostart})
+                    await start_component(Outer, {}, timeout=None)
                 else:
                     comps.append((t, spec))
             if comps:
